@@ -48,6 +48,7 @@ type interpreter struct {
 	P                  *pathState
 	S                  *scheduler
 	W                  *Worker
+	curFr              *frame
 	side               map[any]any // per-execution side tables of intrinsics, keyed by cell
 	funcInstr          map[*ssa.Function]int
 }
@@ -534,6 +535,7 @@ func runFrame(fr *frame) {
 				panic(inconclusive{"instruction budget exceeded"})
 			}
 			fr.cur = instr
+			fr.i.curFr = fr
 			if visitInstr(fr, instr) == kReturn {
 				return
 			}
